@@ -52,6 +52,55 @@ CHECKS = {
         "Dependants are computed from the code's own DAG; reformed runs that raise are skipped and counted.",
         "3/C06",
     ),
+    "C09": (
+        "exploration",
+        "differential testing of make_vectorizable: (1) all ~400 internal rules on generated argument arrays vs the scalar original, (2) Hypothesis grammar of programs in the documented restricted style (and outside it) vs the scalar original, (3) side-effect check (module attribute, later simulations); root cause by repair substitution",
+        "The array form produced from every internal rule and from thousands of generated programs is called on arrays and compared position by position with the scalar original; a loud failure is accepted, a silent difference is a violation keyed by (function, construct).",
+        "numpy backend only. Known findings (else-less augmented assignment, reductions of literals, in-place update of an aliased argument) are enshrined by test_vectorization.py and listed in known_findings.json by construct and by function name.",
+        "3/C09",
+    ),
+    "C10": (
+        "exploration",
+        "property-based testing (Hypothesis) with the rounding specification taken from the reference YAML model: natural values via the raw scalar rule, injected values on / half-way between / next to grid points via a probe rule, fault injection for missing specifications",
+        "For every rounded rule at sampled strata the rounded column is checked against the unrounded scalar value in exact rational arithmetic (grid, direction, offset, error < one step); probe rules put values exactly on the grid and half-way; removing the spec (or base / direction) must raise KeyError; week/day variants must be exact conversions of the rounded column.",
+        "Specs come from yaml.safe_load via vf.refmodel.yaml_env, not from the environment under test.",
+        "3/C10",
+    ),
+    "C11": (
+        "exploration",
+        "property-based testing (Hypothesis) against a dictionary-based reference model: unit level (all aggregation functions, dtypes, sparse unsorted ids, negative pointers) and interface level (automatic sums, user specs, name collisions / precedence)",
+        "Generated columns / id vectors / pointer vectors are aggregated by the code and by a pure-Python reference (math.fsum); dtype rejections and not-implemented pointer aggregations are checked; at interface level user specs, built-in specs and automatic sums are compared with the reference on the run's own columns.",
+        "numpy backend; float sums within 1e-9 relative (+1e-12 of the sum of absolute summands).",
+        "3/C11",
+    ),
+    "C12": (
+        "exploration",
+        "exhaustive enumeration (multiprocessing) of all pointer structures of <= 3 persons and (sampled in quick, complete in thorough) <= 4 persons x all row orders, plus Hypothesis-generated populations, against a reference model of the unit definitions; nesting invariants",
+        "The partitions fg/bg/eg/ehe/sn computed by the grouping functions are compared with a union-find reference written from hh_concepts.md for every enumerated structure and row order; random populations go through the interface and add wthh_id and the nesting / no-collision invariants.",
+        "Structures on which the documentation is silent are only checked for the invariants (counted as under-specified).",
+        "3/C12",
+    ),
+    "C14": (
+        "exploration",
+        "stateful property-based testing (Hypothesis RuleBasedStateMachine) over API histories with a fresh-interpreter differential oracle, purity snapshots of data / params / functions and a module-attribute invariant",
+        "Generated histories of set-up, simulate, user-side reforms, rewrites into array form, load_functions_for_date and failing calls; after every simulate the caller's objects must be unchanged, the call must be repeatable and its result must equal the result of the same call in a fresh Python process.",
+        "Synchronous API only; histories of <= 8-12 steps are sampled.",
+        "3/C14",
+    ),
+    "C18": (
+        "exploration",
+        "exhaustive enumeration of every (parameter file, piecewise parameter, change date, interval) with exact Fraction evaluation of the schedule rebuilt from raw YAML vs piecewise_polynomial at thresholds +-2 ulp / interior / magnitudes / Hypothesis-drawn arguments; exact per-interval conditions for the income-tax and solidarity-surcharge schedules",
+        "All 47 schedule versions are enumerated; evaluation is compared with exact rational arithmetic incl. the rates_multiplier path; zero below the allowance, continuity, monotonicity, convexity and the top-rate bound are decided exactly on the coefficients and cross-checked on the production tariff functions.",
+        "'All real arguments' is reduced to exact per-interval conditions (degree <= 2) plus sampling.",
+        "3/C18",
+    ),
+    "C20": (
+        "fault_enumeration",
+        "fault injection over generated valid populations (15 fault classes x eligible rows/columns, pairs of faults; exhaustive per population in the thorough tier) with a must-raise oracle; metamorphic lossless-dtype variants; Hypothesis unit-level conversion round trip",
+        "Every enumerated fault (and pairs) injected into a valid population must make compute_taxes_and_transfers raise; losslessly convertible dtype variants must reproduce all nodes and be announced by a warning naming exactly the converted columns; unit-level conversions either raise ValueError or preserve every value.",
+        "Rejection = any exception; targets = DEFAULT_TARGETS.",
+        "3/C20",
+    ),
     "C13": (
         "exploration",
         "property-based testing (Hypothesis): algebraic factor laws between the four unit variants of every time-suffixed node, commutation with group sums against a reference sum, metamorphic input-unit swap with bit-identical feedback, unit-level converter round trips on generated floats",
